@@ -17,6 +17,7 @@ PLAN = {
         ob('decode_agree', 'h_decode_agree', {'expect_classes': {'assertion': 3}, 'native': False}),
         ob('unused_bits', 'h_unused_bits', {'expect_classes': {'assertion': 3}, 'native': False}),
         ob('run_fetch', 'h_run_fetch', {'expect_classes': {'assertion': 4}, 'unwind': 9}),
+        ob('run_fetch_concrete', 'h_run_fetch_concrete', {'expect_classes': {'assertion': 2}, 'unwind': 9}),
         {'id': 'table_fidelity_enumeration', 'entry': 'h_decode_unique', 'native_exhaustive': 'verif_exh_decode_tables', 'exhaustive_bridges': ['replay/enum_decode.cpp', '/repo/src/disassembler.cpp'],
          'exhaustive_c': ['replay/enum_decode_ext.c'], 'canary': False, 'range': 65536, 'timeout': 3000,
          'bounded': 'complete native enumeration of all 65536 first words (finite domain): generated decode functions vs the real tables built by GetDecoderTable<Interpreter>() and Decode<Disassembler>; printing under unused bits with 3 second words',
